@@ -46,7 +46,10 @@ func main() {
 	case "c03":
 		modeC03(*thorough)
 	case "c10":
+		done := make(chan struct{})
+		go func() { defer close(done); modeC10Prefetch() }()
 		modeC10(*rules)
+		<-done
 	case "c10boot":
 		modeC10Boot()
 	case "c07":
